@@ -406,3 +406,199 @@ def gen_C06(seed):
 
 
 GENERATORS["C06"] = gen_C06
+
+
+def gen_C19(seed):
+    r = sub(seed, "ops")
+    fams = r.choice([CHEAP_FAMS, CHEAP_FAMS, ALL_FAMS])
+    scn, direction = base_scenario(seed, "C19", fams, max_steps=16)
+    s = scn["system"]
+    t0, tf = s["t0"], s["tf"]
+    nops = r.choice([1, 1, 2, 3])
+    ops = []
+    cur = t0
+    for j in range(nops):
+        op = {"op": "integrate"}
+        if j < nops - 1:
+            op["t"] = round(cur + (tf - cur) * r.uniform(0.2, 0.8), 6)
+            cur = op["t"]
+        ops.append(op)
+    scn["ops"] = ops
+    rf = sub(seed, "faults")
+    if rf.random() < 0.2:
+        i = rf.randrange(len(ops))
+        scn["faults"].append({"op": i, "seam": "rhs", "at": rf.randrange(1, 100), "kind": "raise"})
+        ops.append({"op": "integrate"})
+    return scn
+
+
+GENERATORS["C19"] = gen_C19
+
+
+def gen_C12(seed):
+    r = sub(seed, "ops")
+    fams = r.choice([ALL_FAMS, ALL_FAMS, CHEAP_FAMS, ["implicit_fixed", "implicit_adaptive"], ["explicit_adaptive", "richardson"]])
+    with_events = r.random() < 0.4
+    scn, direction = base_scenario(seed, "C12", fams, family="osc" if with_events and r.random() < 0.8 else None, max_steps=10,
+                                   length=rnd(r, 0.4, 1.6, 3))
+    s = scn["system"]
+    if gen_is_slow(s["method"]):
+        s["rtol"], s["atol"] = 1e-3, 1e-5
+    t0, tf = s["t0"], s["tf"]
+    if with_events:
+        scn["events"] = gen_events(r, scn, r.choice([1, 1, 2, 3]), terminal_prob=0.35)
+    ops = []
+    first = {"op": "integrate"}
+    two = r.random() < 0.35
+    if two:
+        first["t"] = round(t0 + (tf - t0) * r.uniform(0.3, 0.7), 6)
+    cbs = r.choice([[], [], ["probe"], ["plan"], ["probe", "plan"]])
+    if cbs:
+        first["callbacks"] = cbs
+        if "plan" in cbs:
+            first["plan"] = [(None if r.random() < 0.4 else float("%.4g" % (abs(s["dt"]) * r.uniform(0.4, 1.2)))) for _ in range(r.choice([1, 2, 4]))]
+    if with_events:
+        first["events"] = sorted(r.sample(range(len(scn["events"])), r.randint(1, len(scn["events"]))))
+    ops.append(first)
+    if two:
+        second = {"op": "integrate"}
+        if with_events and r.random() < 0.7:
+            second["events"] = first["events"]
+        if cbs and r.random() < 0.5:
+            second["callbacks"] = ["probe"]
+        ops.append(second)
+    ops.append({"op": "integrate"})      # resume (no-op in the fault-free twin)
+    ops.append({"op": "reset"})
+    last = {"op": "integrate"}
+    if with_events and r.random() < 0.5:
+        last["events"] = first["events"]
+    ops.append(last)
+    scn["ops"] = ops
+    scn["fault_ops_upto"] = 1 if two else 0
+    return scn
+
+
+def gen_is_slow(method):
+    return method in ("RadauIIA5", "RadauIIA19", "LobattoIIIC4") or method.startswith("Rich:")
+
+
+GENERATORS["C12"] = gen_C12
+
+
+def gen_C13(seed):
+    r = sub(seed, "ops")
+    fams = r.choice([ALL_FAMS, CHEAP_FAMS, CHEAP_FAMS, ["implicit_fixed", "splitting", "explicit_adaptive"]])
+    with_events = r.random() < 0.35
+    scn, direction = base_scenario(seed, "C13", fams, family="osc" if with_events and r.random() < 0.8 else None, max_steps=12,
+                                   length=rnd(r, 0.5, 2.0, 3))
+    s = scn["system"]
+    if gen_is_slow(s["method"]):
+        s["rtol"], s["atol"] = 1e-3, 1e-5
+    if s["rtol"] is None:
+        # a later "set method" may select an adaptive/Richardson method; Richardson wrappers cannot be constructed without tolerances
+        s["rtol"], s["atol"] = 1e-4, 1e-6
+    t0, tf = s["t0"], s["tf"]
+    L = abs(tf - t0)
+    if with_events:
+        scn["events"] = gen_events(r, scn, r.choice([1, 2, 3]), terminal_prob=0.3)
+    sep = scn["problem"]["family"] in ("osc", "duffing", "pendulum")
+    if r.random() < 0.25:
+        # pure split-vs-whole history
+        on_grid = r.random() < 0.6
+        n = r.choice([2, 3, 4])
+        dtm = abs(s["dt"])
+        ops = []
+        for j in range(1, n):
+            if on_grid:
+                ksteps = max(1, int((L / dtm) * j / n))
+                tgt = t0 + direction * ksteps * dtm
+            else:
+                tgt = round(t0 + direction * L * j / n * r.uniform(0.8, 1.0), 6)
+            if ops and ops[-1]["t"] == tgt:
+                continue
+            ops.append({"op": "integrate", "t": tgt})
+        ops.append({"op": "integrate"})
+        scn["ops"] = ops
+        scn["split_check"] = True
+        scn["on_grid"] = bool(on_grid and s["dt"] == dtm * (1 if s["dt"] > 0 else -1) and float(abs(s["dt"])) == 2.0 ** round(math.log2(abs(s["dt"]))))
+        scn["knobs"].pop("alloc_cap", None) if r.random() < 0.5 else None
+        return scn
+    nops = r.randint(2, 9)
+    ops = []
+    cur = t0
+    cur_tf = tf
+    have_reset = False
+    for j in range(nops):
+        x = r.random()
+        if x < 0.16 and j > 0:
+            ops.append({"op": "reset"})
+            cur = t0
+            have_reset = True
+        elif x < 0.22:
+            ops.append({"op": "set", "attr": "dt", "value": float("%.4g" % (abs(s["dt"]) * r.uniform(0.4, 1.6) * r.choice([1, -1])))})
+        elif x < 0.30:
+            ops.append({"op": "set", "attr": r.choice(["rtol", "atol"]), "value": float("%.2e" % 10 ** r.uniform(-6, -3))})
+        elif x < 0.37:
+            m = pick_method(r, CHEAP_FAMS if not sep else CHEAP_FAMS + ["splitting"])
+            if method_family(m) == "splitting" and not sep:
+                m = "RK4Solver"
+            ops.append({"op": "set", "attr": "method", "value": m})
+        elif x < 0.41:
+            newtf = round(cur_tf + direction * L * r.uniform(0.1, 0.5), 6)
+            ops.append({"op": "set", "attr": "tf", "value": newtf})
+            cur_tf = newtf
+        elif x < 0.45 and sep:
+            n = scn["problem"]["shape"][0]
+            mask = [bool(r.random() < 0.5) for _ in range(n)]
+            if not any(mask):
+                mask[-1] = True
+            ops.append({"op": "set", "attr": "kick", "value": mask})
+        else:
+            op = {"op": "integrate"}
+            y = r.random()
+            if y < 0.12 and j > 0:
+                op["t"] = cur
+                op["noop"] = True
+            elif y < 0.6 and abs(cur_tf - cur) > 0.05 * L:
+                op["t"] = round(cur + (cur_tf - cur) * r.uniform(0.2, 0.9), 6)
+                cur = op["t"]
+            else:
+                cur = cur_tf
+            if with_events and r.random() < 0.6:
+                op["events"] = sorted(r.sample(range(len(scn["events"])), r.randint(1, len(scn["events"]))))
+            if r.random() < 0.25:
+                op["callbacks"] = r.choice([["probe"], ["plan"]])
+                if "plan" in op["callbacks"]:
+                    op["plan"] = [float("%.4g" % (abs(s["dt"]) * r.uniform(0.4, 1.2))) for _ in range(r.choice([1, 2, 3]))]
+            ops.append(op)
+    if not have_reset:
+        ops.append({"op": "reset"})
+        ops.append({"op": "integrate"})
+    elif ops[-1]["op"] == "reset":
+        ops.append({"op": "integrate"})
+    # noop flag is only right if the previous op left the system exactly at `cur`: recompute conservatively
+    for i, op in enumerate(ops):
+        if op.get("noop"):
+            prev = ops[i - 1]
+            if not (prev["op"] == "integrate" and prev.get("t") == op["t"] and not prev.get("events")):
+                op.pop("noop")
+    scn["ops"] = ops
+    rf = sub(seed, "faults")
+    iops = [i for i, o in enumerate(ops) if o["op"] == "integrate" and not o.get("noop")]
+    if rf.random() < 0.4 and iops:
+        for _ in range(rf.choice([1, 1, 2])):
+            i = rf.choice(iops)
+            seam = rf.choice(["rhs", "rhs", "event", "callback"])
+            if seam == "event" and not ops[i].get("events"):
+                seam = "rhs"
+            if seam == "callback" and not ops[i].get("callbacks"):
+                seam = "rhs"
+            scn["faults"].append({"op": i, "seam": seam, "at": rf.randrange(1, 80 if seam != "callback" else 6), "kind": rf.choice(["raise", "raise", "kbdint"])})
+    fault_ops = set(f["op"] for f in scn["faults"])
+    for i, op in enumerate(ops):
+        if op.get("noop") and (i - 1) in fault_ops:
+            op.pop("noop")          # the previous call may not have reached its target
+    return scn
+
+
+GENERATORS["C13"] = gen_C13
